@@ -126,11 +126,33 @@ def integration_facts(prog: Program, fw: str, ci: ClassInfo) -> Tuple[Dict[str, 
                 norm(cond.comparators[0]).endswith('REQUEST_CONTENT_TYPES')
             refuse_when_not_in = (e.label == 'T') == isinstance(cond.ops[0], ast.NotIn)
             k = ACCESSORS.get((fw, acc or ''), 'unknown-accessor')
+            if k == 'unknown-accessor' and not isinstance(cond.left, ast.Attribute):
+                # not a framework accessor at all: where does the compared value come from?
+                srcs = [cond.left]
+                if isinstance(cond.left, ast.Name):
+                    srcs += [st.value for st in walk_own(f.node) if isinstance(st, ast.Assign) and any(isinstance(t, ast.Name) and t.id == cond.left.id for t in st.targets)]
+                for _ in range(3):
+                    more = []
+                    for sx in srcs:
+                        for y in ast.walk(sx):
+                            if isinstance(y, ast.Name):
+                                more += [st.value for st in walk_own(f.node) if isinstance(st, ast.Assign) and any(isinstance(t, ast.Name) and t.id == y.id for t in st.targets)]
+                    srcs += [m for m in more if m not in srcs]
+                txt = ' '.join(norm(x) for x in srcs)
+                if 'headers' in txt or 'content_type' in txt or 'CONTENT_TYPE' in txt:
+                    k = 'hand-parsed-header'
+                    facts['gate'] = 'hand-parsed header'
+                    problems.append(('GATE-MEDIA', 'gate compares a hand-parsed Content-Type header', c.line,
+                                     f'{fw}: `{norm(cond)}` compares a value derived from the raw header (`{txt[:80]}`): unlike the framework\'s media-type '
+                                     f'accessor it is not normalised (case, whitespace around ";"), so documented types such as "Application/JSON" or '
+                                     f'"application/json ; charset=utf-8" are refused with 415'))
             kind = f'{k} {"not in" if refuse_when_not_in else "in"} {"REQUEST_CONTENT_TYPES" if table_ok else norm(cond.comparators[0])}'
             facts['gate'] = kind
-            if k == 'unknown-accessor':
+            if k == 'hand-parsed-header':
+                pass
+            elif k == 'unknown-accessor':
                 raise AnalysisError(f'{f.qualname}: request accessor `{norm(cond.left)}` is not in the framework accessor table')
-            if k != 'media-type':
+            if k not in ('media-type', 'hand-parsed-header'):
                 problems.append(('GATE-MEDIA', f'gate compares the {k} `{norm(cond.left)}`', c.line,
                                  f'{fw}: `{norm(cond)}` compares the raw Content-Type header with the documented types: a documented type '
                                  f'sent with a parameter ("application/json; charset=utf-8") is refused with 415; the parameter-free media type must be compared'))
